@@ -1690,10 +1690,16 @@ write_module_support(ostream &out, ostream *out_h, InterrogateModuleDef *def) {
         out << "  PyModule_AddIntConstant(module, \"" << name2 << "\", " << value << ");\n";
       }
     } else {
+      // The definition is arbitrary source text (it may itself be a string
+      // literal), so it has to be escaped to appear within quotes.
       string value = iman.get_definition();
-      out << "  PyModule_AddStringConstant(module, \"" << name1 << "\", \"" << value << "\");\n";
+      out << "  PyModule_AddStringConstant(module, \"" << name1 << "\", ";
+      output_quoted(out, 0, value);
+      out << ");\n";
       if (name1 != name2) {
-        out << "  PyModule_AddStringConstant(module, \"" << name2 << "\", \"" << value << "\");\n";
+        out << "  PyModule_AddStringConstant(module, \"" << name2 << "\", ";
+        output_quoted(out, 0, value);
+        out << ");\n";
       }
     }
   }
